@@ -1,18 +1,22 @@
-(* C09 -- encapsulation calls are total and failure-atomic. Pinned statements only.
-   encap_ext is covered in props/C13.v-adjacent theorem c09_encap_ext below once proofs/ExtSpec.v is loaded. *)
+(* C09 -- encapsulation calls are total and failure-atomic. Pinned statements only. *)
 Require Import GSE.model.Base GSE.model.Types GSE.model.Ext GSE.model.Encap
-  GSE.proofs.Tactics GSE.proofs.EncapSpec GSE.proofs.EncapProps.
+  GSE.proofs.Tactics GSE.proofs.EncapSpec GSE.proofs.EncapProps GSE.proofs.ExtSpec GSE.proofs.ExtTrip GSE.proofs.ExtProps.
 Open Scope N_scope.
 
 (* states reachable through the public API are well formed (the hypothesis of the theorems below) *)
 Inductive enc_call :=
   | CEncap (pdu : list byte) (fid pt : N) (lab : label) (buf : list byte)
+  | CEncapExt (pdu : list byte) (fid pt : N) (lab : label) (buf : list byte) (exts : list ext)
   | CReset | CDisable | CEnable | CEnableMax (m : N).
 Definition call_ok (c : enc_call) : Prop :=
-  match c with CEncap _ _ _ lab _ => label_wf lab | CEnableMax m => m < 256 | _ => True end.
+  match c with
+  | CEncap _ _ _ lab _ => label_wf lab
+  | CEncapExt _ _ _ lab _ exts => label_wf lab /\ Forall ext_built exts   (* extensions come from Extension::new *)
+  | CEnableMax m => m < 256 | _ => True end.
 Definition call_step crc (s : enc_state) (c : enc_call) : res enc_state :=
   match c with
   | CEncap pdu fid pt lab buf => do r <- encap crc s pdu fid pt lab buf; Ret (fst (fst r))
+  | CEncapExt pdu fid pt lab buf exts => do r <- encap_ext crc s pdu fid pt lab buf exts; Ret (fst (fst r))
   | CReset => Ret (enc_reset s) | CDisable => Ret (enc_disable s) | CEnable => Ret (enc_enable s)
   | CEnableMax m => Ret (enc_enable_max s m)
   end.
@@ -29,6 +33,9 @@ Proof.
   { destruct c; cbn [call_step call_ok] in *.
     - destruct (encap_total crc s pdu fid pt lab buf Hs H1) as ([[s' b'] r] & E). rewrite E. cbn [bind fst].
       eexists; split; [reflexivity|]. eapply encap_wf; eauto.
+    - destruct H1 as [Hl Hx]. rewrite encap_ext_spec by (auto; revert Hx; apply Forall_impl; exact ext_built_wf). cbn [bind].
+      eexists; split; [reflexivity|]. destruct (encap_ext_hl crc s pdu fid pt lab buf exts) as [[s' b'] r] eqn:E. cbn [fst].
+      eapply encap_ext_hl_wf; eauto.
     - eexists; split; [reflexivity|now apply enc_reset_wf].
     - eexists; split; [reflexivity|apply enc_disable_wf].
     - eexists; split; [reflexivity|now apply enc_enable_wf].
@@ -46,6 +53,10 @@ Theorem c09_total_previews : forall pdu pt lab ctx buf, label_wf lab ->
   (exists r, encap_preview pdu pt lab buf = Ret r) /\ (exists r, encap_frag_preview pdu ctx buf = Ret r).
 Proof. intros. split; eexists; [now apply encap_preview_spec|apply encap_frag_preview_spec]. Qed.
 
+Theorem c09_total_encap_ext : forall crc s pdu fid pt lab buf exts, enc_wf s -> label_wf lab -> Forall ext_built exts ->
+  exists r, encap_ext crc s pdu fid pt lab buf exts = Ret r.
+Proof. intros. eexists. apply encap_ext_spec; auto. eapply Forall_impl; [|eassumption]. exact ext_built_wf. Qed.
+
 (* failure atomicity: on Err the buffer is byte-for-byte unchanged and the encapsulator state is the same *)
 Theorem c09_atomic_encap : forall crc s pdu fid pt lab buf s' buf' e, enc_wf s -> label_wf lab ->
   encap crc s pdu fid pt lab buf = Ret (s', buf', inr e) -> s' = s /\ buf' = buf.
@@ -53,6 +64,14 @@ Proof. exact encap_atomic. Qed.
 Theorem c09_atomic_encap_frag : forall pdu ctx buf buf' e,
   encap_frag pdu ctx buf = Ret (buf', inr e) -> buf' = buf.
 Proof. exact encap_frag_atomic. Qed.
+
+Theorem c09_atomic_encap_ext : forall crc s pdu fid pt lab buf exts s' buf' e, enc_wf s -> label_wf lab -> Forall ext_built exts ->
+  encap_ext crc s pdu fid pt lab buf exts = Ret (s', buf', inr e) -> s' = s /\ buf' = buf.
+Proof.
+  intros crc s pdu fid pt lab buf exts s' buf' e Hs Hw Hx H.
+  rewrite encap_ext_spec in H by (auto; revert Hx; apply Forall_impl; exact ext_built_wf). injection H as H.
+  eapply encap_ext_hl_err; eauto.
+Qed.
 
 (* rejections: a zero 6-byte label, a protocol type in 0x0100..=0x05FF, a PDU exceeding the 16-bit total length
    never give a packet; encap_frag rejects a context pointing beyond the PDU *)
@@ -67,6 +86,18 @@ Proof.
   - intro Hp. destruct (encap_rejects_ptype crc s pdu fid pt lab buf Hp) as (e & ->). eauto.
   - intros s' buf' st [= H]. eapply encap_ok_total_len; eauto.
 Qed.
+Theorem c09_rejects_ext : forall crc s pdu fid pt lab buf exts, enc_wf s -> label_wf lab -> Forall ext_built exts ->
+  (lab = L6 [0;0;0;0;0;0] -> exists e, encap_ext crc s pdu fid pt lab buf exts = Ret (s, buf, inr e)) /\
+  (0x0100 <= pt <= 0x05FF -> exists e, encap_ext crc s pdu fid pt lab buf exts = Ret (s, buf, inr e)) /\
+  (forall s' buf' st, encap_ext crc s pdu fid pt lab buf exts = Ret (s', buf', inl st) ->
+     lenN pdu + 2 + lenN (label_bytes (snd (check_reuse_hl s lab))) <= 65535).
+Proof.
+  intros crc s pdu fid pt lab buf exts Hs Hw Hx.
+  rewrite !encap_ext_spec by (auto; revert Hx; apply Forall_impl; exact ext_built_wf). repeat split.
+  - intros ->. destruct (encap_ext_rejects_zero crc s pdu fid pt buf exts) as (e & ->). eauto.
+  - intro Hp. destruct (encap_ext_rejects_ptype crc s pdu fid pt lab buf exts Hp) as (e & ->). eauto.
+  - intros s' buf' st [= H]. eapply encap_ext_ok_total_len; eauto.
+Qed.
 Theorem c09_rejects_frag : forall pdu ctx buf, lenN pdu < cf_len ctx ->
   encap_frag pdu ctx buf = Ret (buf, inr EPduLength).
 Proof. exact encap_frag_rejects_beyond. Qed.
@@ -77,6 +108,9 @@ Proof. split; [apply enc_new_wf|]. split; [cbn; repeat constructor; lia|reflexiv
 
 Print Assumptions c09_reachable_wf.
 Print Assumptions c09_total_encap.
+Print Assumptions c09_total_encap_ext.
+Print Assumptions c09_atomic_encap_ext.
+Print Assumptions c09_rejects_ext.
 Print Assumptions c09_total_encap_frag.
 Print Assumptions c09_total_previews.
 Print Assumptions c09_atomic_encap.
